@@ -20,7 +20,7 @@ from typing import Dict, List, Optional, Tuple
 from .. import poly
 from ..costlib import Registration, cost_specs
 from ..model import AnalysisError, ClassInfo, FunctionInfo
-from ..numdom import AV, INF, NumError, NumEval, const
+from ..numdom import AV, INF, NumError, NumEval, const, join
 from ..sym import NONE, Term, mentions, show, subterms
 from ..util import (SELF, arg, callee, is_call, method_call, paths, returning, short, where)
 
@@ -39,11 +39,14 @@ SIZE_INPUTS = ['cin', 'cout', 'k0', 'k1', 'o2', 'o3']
 BIT_MONOTONE_SPECS = {'params_bit', 'ops_bit', 'mpic_latency', 'mpic_energy', 'ne16_latency'}
 # functions the numeric domain cannot interpret (each with its reason); their sign and
 # monotonicity clauses are reported as not decided, the other rules still apply
-NOT_INTERPRETED = {
-    '_ne16_latency_conv2d_generic': 'Ne16PerfModel is a stateful class with nested closures and '
-                                    'data-dependent tiling branches (k_out_rem != 0)',
-    '_ne16_latency_conv2d_dw': 'same NE16 performance model',
-    '_ne16_latency_linear': 'same NE16 performance model',
+NOT_INTERPRETED: Dict[str, str] = {}
+# cost functions built on a plain performance-model class: evaluated once per kernel shape the
+# function accepts (the shapes are asserted by the function itself; a shape it rejects makes
+# every returning path infeasible and is skipped) with the only supported activation width
+PERF_MODEL_WORLDS = {
+    '_ne16_latency_conv2d_generic': [(3.0, 3.0), (1.0, 1.0)],
+    '_ne16_latency_conv2d_dw': [(3.0, 3.0), (1.0, 1.0)],
+    '_ne16_latency_linear': [(1.0, 1.0)],
 }
 
 KEY_INPUT = {'in_channels': 'cin', 'in_features': 'cin', 'out_channels': 'cout',
@@ -171,9 +174,110 @@ def ox_unroll_summary(ctx):
     return summary
 
 
+class PerfModelOuter(NumEval):
+    """Evaluates cost functions that build an instance of a plain performance-model class
+    (NE16): ``Model(args).<property>`` is evaluated by sa/objnum.ObjEval on an abstract
+    instance whose fields come from the constructor (its ``self.x = ...`` stores with the
+    actual arguments) and from the ``set_layer`` call found on the same path."""
+
+    def __init__(self, *a, **kw):
+        super().__init__(*a, **kw)
+        self._path = None
+        self.lemma_uses = 0
+        self.models = 0
+
+    def ev_path(self, p, d):
+        # remember the path being evaluated: mutator calls on an instance are events of it
+        prev, self._path = self._path, p
+        try:
+            return self.ev(p.retval, d)
+        finally:
+            self._path = prev
+
+    def _ctor_calls(self, p):
+        return [e for e in p.calls() if callee(e.data[0]) in self.repo.classes and
+                not self.repo.external_bases(self.repo.classes[callee(e.data[0])])]
+
+    def ev(self, t, depth=None):
+        d = self.depth if depth is None else depth
+        if t[0] == 'attr' and t[1][0] == 'call' and callee(t[1]) in self.repo.classes and \
+                self._path is not None:
+            ci = self.repo.classes[callee(t[1])]
+            if not self.repo.external_bases(ci):
+                return self.instance(ci, t[1], d).field_or_raise(t[2], d)
+        return super().ev(t, depth)
+
+    def instance(self, ci, ctor: Term, d: int):
+        from ..objnum import ObjEval
+        init = ci.methods['__init__']
+        bind = {'self': SELF}
+        for p_, a in zip(init.params[1:], ctor[2]):
+            bind[p_] = a
+        for k, v in ctor[3]:
+            bind[k] = v
+        import ast as _ast
+        for p_, dv in init.defaults().items():
+            if p_ not in bind and isinstance(dv, _ast.Constant):
+                bind[p_] = ('const', dv.value)
+        fields: Dict[str, object] = {}
+        ips = returning(paths(self.repo, init, bind))
+        if len(ips) != 1:
+            raise NumError(f'{ci.name}.__init__ has {len(ips)} paths')
+        outer = self
+
+        def as_value(v):
+            if v[0] == 'const' and isinstance(v[1], str):
+                return v
+            if v[0] == 'tuple' and all(x[0] == 'const' for x in v[1]):
+                return v
+            return outer.ev(v, d)
+        for e in ips[0].events:
+            if e.kind == 'setattr' and e.data[0] == SELF:
+                try:
+                    fields[e.data[1]] = as_value(e.data[2])
+                except NumError:
+                    pass        # a field that needs other fields (default layer): set below
+        # mutators called on this instance on the current path
+        for e in self._path.calls():
+            mc = method_call(e.data[0])
+            if mc and mc[0] == ctor:
+                m = self.repo.find_method(ci, mc[1])
+                if m is None:
+                    continue
+                mb = {'self': SELF}
+                for p_, a in zip(m.params[1:], mc[2]):
+                    mb[p_] = a
+                for q in returning(paths(self.repo, m, mb)):
+                    for e2 in q.events:
+                        if e2.kind == 'setattr' and e2.data[0] == SELF:
+                            fields[e2.data[1]] = as_value(e2.data[2])
+        oe = ObjEval(self.repo, ci, fields, self.inputs, depth=14)
+        oe.summaries = self.summaries
+        self.models += 1
+        self._last = oe
+
+        class _W:
+            def field_or_raise(_s, name, dd):
+                v = oe.field(name, oe.depth)
+                if v is None:
+                    raise NumError(f'{ci.name}.{name} has no value')
+                outer.lemma_uses += oe.lemma_uses
+                oe.lemma_uses = 0
+                return v
+        return _W()
+
+
 def run_numeric(ctx, reg: Registration, ranges) -> AV:
     sp = ('param', reg.fn.params[0])
     si = SpecInputs(sp, ranges)
+    if reg.fn.name in PERF_MODEL_WORLDS:
+        ne = PerfModelOuter(ctx.repo, si, summaries=ctx._c16_summaries, depth=10)
+        si.ne = ne
+        si.heap = heap_of(ctx, reg.fn)
+        v = ne.function_value(reg.fn, {}, ne.depth)
+        ctx.count('R16a:tiling lemma applications', ne.lemma_uses)
+        ctx.count('R16a:abstract model instances', ne.models)
+        return v
     ne = NumEval(ctx.repo, si, summaries=ctx._c16_summaries)
     si.ne = ne
     si.heap = heap_of(ctx, reg.fn)
@@ -188,59 +292,96 @@ def r16a(ctx, specs):
     for sname, si in sorted(specs.items()):
         for reg in si.regs:
             n += 1
-            lbl = f'{sname}[{reg.pattern}]'
             loc = f'{reg.module.relpath}:{reg.fn.node.lineno}'
-            if reg.fn.name in NOT_INTERPRETED:
-                undecided.append(lbl)
-                continue
-            try:
-                v = run_numeric(ctx, reg, default_ranges())
-            except NumError as e:
-                msg = str(e)
-                if 'division by a value whose sign is not constant' in msg or 'may be <= 0' in msg:
-                    ctx.ob('R16a', f'{lbl} finite', False,
-                           f'{reg.fn.name}: {msg} for some valid layer description', loc)
-                    continue
-                raise AnalysisError(f'R16a: {reg.fn.qualname} is outside the numeric domain: '
-                                    f'{msg}')
-            if v.kind != 'num':
-                raise AnalysisError(f'R16a: {reg.fn.qualname} returns a non-numeric value')
-            ctx.ob('R16a', f'{lbl} finite', True, 'no division by a possibly-zero value', loc)
-            ctx.ob('R16a', f'{lbl} non-negative', v.lo >= 0,
-                   f'value in [{v.lo}, {v.hi}]' if v.lo >= 0 else
-                   f'{reg.fn.name} can return a negative value (abstract range '
-                   f'[{v.lo}, {v.hi}]) for a valid layer description', loc)
-            for x in SIZE_INPUTS:
-                dx = v.d(x)
-                ctx.ob('R16a', f'{lbl} monotone in {x}', dx in (0, 1),
-                       ('independent of' if dx == 0 else 'non-decreasing in') + f' {x}'
-                       if dx in (0, 1) else
-                       f'{reg.fn.name} is not provably non-decreasing in {NAMES[x]} '
-                       f'({"decreasing" if dx == -1 else "direction unknown"}): growing the layer '
-                       f'can lower its cost', loc, nontrivial=dx != 0)
-            if sname in BIT_MONOTONE_SPECS:
-                for x in ('wbits', 'abits'):
+            worlds = [('', {})]
+            if reg.fn.name in PERF_MODEL_WORLDS:
+                # the share of channels at this precision is > 0 here; share == 0 is the
+                # guarded early return, decided on its own below
+                worlds = [(f' @kernel {int(k0)}x{int(k1)}',
+                           {'k0': (k0, k0), 'k1': (k1, k1), 'abits': (8.0, 8.0),
+                            'wtheta': (1e-300, 1.0)})
+                          for k0, k1 in PERF_MODEL_WORLDS[reg.fn.name]]
+            decided = 0
+            for suffix, override in worlds:
+                lbl = f'{sname}[{reg.pattern}]{suffix}'
+
+                def ranges(**kw):
+                    r = default_ranges(**kw)
+                    r.update(override)
+                    return r
+                if suffix:
+                    # a kernel shape the function's own assertions reject leaves no returning
+                    # path for a non-empty layer at a non-zero bit-width
+                    try:
+                        run_numeric(ctx, reg, ranges(wbits=(2.0, 8.0)))
+                    except NumError as e:
+                        if 'every path is infeasible' in str(e):
+                            ctx.note(f'R16a {lbl}: kernel shape rejected by the function itself')
+                            continue
+                    try:
+                        z = run_numeric(ctx, reg, dict(ranges(), wtheta=(0.0, 0.0)))
+                    except NumError:
+                        z = AV(-INF, INF)
+                    ctx.ob('R16a', f'{lbl} zero share costs nothing', z.lo == 0 and z.hi == 0,
+                           'w_theta_alpha == 0 returns 0 before the model divides by it'
+                           if z.lo == 0 and z.hi == 0 else
+                           f'with no channel at this precision the function does not return 0 '
+                           f'(range [{z.lo}, {z.hi}]): it goes on to divide by the zero share', loc)
+                try:
+                    v = run_numeric(ctx, reg, ranges())
+                except NumError as e:
+                    msg = str(e)
+                    if 'division by a value whose sign is not constant' in msg or \
+                            'may be <= 0' in msg:
+                        ctx.ob('R16a', f'{lbl} finite', False,
+                               f'{reg.fn.name}: {msg} for some valid layer description', loc)
+                        decided += 1
+                        continue
+                    raise AnalysisError(f'R16a: {reg.fn.qualname} is outside the numeric domain: '
+                                        f'{msg}')
+                decided += 1
+                if v.kind != 'num':
+                    raise AnalysisError(f'R16a: {reg.fn.qualname} returns a non-numeric value')
+                ctx.ob('R16a', f'{lbl} finite', True, 'no division by a possibly-zero value', loc)
+                ctx.ob('R16a', f'{lbl} non-negative', v.lo >= 0,
+                       f'value in [{v.lo}, {v.hi}]' if v.lo >= 0 else
+                       f'{reg.fn.name} can return a negative value (abstract range '
+                       f'[{v.lo}, {v.hi}]) for a valid layer description', loc)
+                for x in SIZE_INPUTS:
+                    if x in override:
+                        continue        # fixed in this world
                     dx = v.d(x)
                     ctx.ob('R16a', f'{lbl} monotone in {x}', dx in (0, 1),
                            ('independent of' if dx == 0 else 'non-decreasing in') + f' {x}'
                            if dx in (0, 1) else
-                           f'{reg.fn.name} is not provably non-decreasing in the '
-                           f'{"weight" if x == "wbits" else "activation"} bit-width', loc,
-                           nontrivial=dx != 0)
-            # strictly positive for a non-empty layer at non-zero bit-widths
-            try:
-                vp = run_numeric(ctx, reg, default_ranges(wbits=(2.0, 8.0)))
-                ctx.ob('R16a', f'{lbl} positive', vp.lo > 0,
-                       f'value >= {vp.lo} > 0' if vp.lo > 0 else
-                       f'{reg.fn.name} can be 0 for a non-empty layer at non-zero bit-widths '
-                       f'(abstract lower bound {vp.lo})', loc)
-            except NumError as e:
-                raise AnalysisError(f'R16a: {reg.fn.qualname}: {e}')
+                           f'{reg.fn.name} is not provably non-decreasing in {NAMES[x]} '
+                           f'({"decreasing" if dx == -1 else "direction unknown"}): growing the '
+                           f'layer can lower its cost', loc, nontrivial=dx != 0)
+                if sname in BIT_MONOTONE_SPECS:
+                    for x in ('wbits', 'abits'):
+                        dx = v.d(x)
+                        ctx.ob('R16a', f'{lbl} monotone in {x}', dx in (0, 1),
+                               ('independent of' if dx == 0 else 'non-decreasing in') + f' {x}'
+                               if dx in (0, 1) else
+                               f'{reg.fn.name} is not provably non-decreasing in the '
+                               f'{"weight" if x == "wbits" else "activation"} bit-width', loc,
+                               nontrivial=dx != 0)
+                # strictly positive for a non-empty layer at non-zero bit-widths
+                try:
+                    vp = run_numeric(ctx, reg, ranges(wbits=(2.0, 8.0)))
+                    ctx.ob('R16a', f'{lbl} positive', vp.lo > 0,
+                           f'value >= {vp.lo} > 0' if vp.lo > 0 else
+                           f'{reg.fn.name} can be 0 for a non-empty layer at non-zero bit-widths '
+                           f'(abstract lower bound {vp.lo})', loc)
+                except NumError as e:
+                    raise AnalysisError(f'R16a: {reg.fn.qualname}: {e}')
+            if decided == 0:
+                raise AnalysisError(f'R16a: {reg.fn.qualname} accepts no kernel shape')
     ctx.floor('R16a', 'cost registrations', n, 48)
-    for u in undecided:
-        ctx.note(f'R16a sign/monotonicity not decided for {u}: '
-                 f'{NOT_INTERPRETED["_ne16_latency_linear"]}')
     ctx.count('R16a:not interpreted', len(undecided))
+    ctx.note('R16a: the NE16 model accepts only 1x1 and 3x3 kernels (asserted by the cost '
+             'functions); each accepted shape is decided separately, the comparison 1x1 vs 3x3 '
+             '(monotonicity in the kernel size) is not decided')
 
 
 NAMES = {'cin': 'input channels', 'cout': 'output channels', 'k0': 'kernel size (axis 0)',
